@@ -11,7 +11,8 @@ all. Uncaught: stderr traceback (frames innermost first with function and line, 
 "Class: message") and failing status. Caught: e.message, e.inner.message, the class, and
 every e.backTrace entry (frames from the raise to the catching frame). exit(n) family.
 Oracle: reference call chain with the printer's own line numbers (vlib/layref.py).
-Frames of natives ('native:0 in name()') are filtered on both sides.
+Natives that run callbacks from a frame of their own (each, reduce) appear as 'native:0 in name()' frames and are compared
+too; inside such callbacks another frame-using native (print, each) is called first.
 """
 import itertools, re, time
 from vlib.engine import Check, Verdict, explore
@@ -23,7 +24,7 @@ def V(x): return ["var", x]
 def call(f, *a): return ["call", V(f) if isinstance(f, str) else f, list(a)]
 def inv(o, m, *a): return ["invoke", o, m, list(a)]
 
-KINDS = ["fn", "method", "init", "static", "lambda", "callback", "module"]
+KINDS = ["fn", "method", "init", "static", "lambda", "callback", "cbreduce", "module"]
 SITES = ["raise", "raise_inner", "raise_sub", "vm", "native"]
 
 
@@ -45,7 +46,7 @@ def handler(tag):
     user = ["or", ["bin", "==", name, S("Error")], ["bin", "==", name, S("MyErr")]]
     return [["print", [S(tag), name, ["tern", user, ["get", e, "message"], S("-")]]],
             ["if", ["and", user, ["bin", "!=", ["get", e, "inner"], ["nil"]]], [["print", [S("inner"), ["get", ["get", e, "inner"], "message"], inv(["get", ["get", e, "inner"], "backTrace"], "len")]]], None],
-            ["for", "bt", ["get", e, "backTrace"], [["if", ["bin", "!=", inv(V("bt"), "slice", N(0), N(7)), S("native:")], [["print", [S("bt"), V("bt")]]], None]]]]
+            ["for", "bt", ["get", e, "backTrace"], [["print", [S("bt"), V("bt")]]]]]
 
 
 def build(chain, site, catch_at, nonmatch=None):
@@ -84,8 +85,13 @@ def build(chain, site, catch_at, nonmatch=None):
             main.append(["let", "lam%d" % k, ["lambda", [], body, False]])
             c = [["expr", call("lam%d" % k)]]
         elif kind == "callback":
-            main.append(["fn", "cb%d" % k, [], [["expr", inv(inv(["list", [N(1)]], "iter"), "each", ["lambda", ["x"], body, False])], ["return", N(k)]]])
+            # the callback first calls another native that uses a frame of its own (print), then goes on: the frame of each() must keep its name
+            main.append(["fn", "cb%d" % k, [], [["expr", inv(inv(["list", [N(1)]], "iter"), "each", ["lambda", ["x"], [["print", [S("in each"), N(k)]]] + body, False])], ["return", N(k)]]])
             c = [["expr", call("cb%d" % k)]]
+        elif kind == "cbreduce":
+            main.append(["fn", "cr%d" % k, [], [["expr", inv(inv(["list", [N(1)]], "iter"), "reduce", N(0), ["lambda", ["a", "x"], [["expr", inv(inv(["list", [N(2)]], "iter"), "each", ["lambda", ["z"], [["return", V("z")]], False])]] + body, False])],
+                                               ["return", N(k)]]])
+            c = [["expr", call("cr%d" % k)]]
         else:  # module
             other.append(["export", ["fn", "mod%d" % k, [], body]])
             # called through the module object from main, directly from another function of that module
@@ -134,7 +140,7 @@ def parse_traceback(err):
     frames = []
     for l in lines:
         m = TB.match(l)
-        if m and not l.strip().startswith("native:"):
+        if m:
             frames.append((m.group(1), int(m.group(2)), m.group(3)))
     return frames, (lines[-1] if lines else "")
 
@@ -177,13 +183,13 @@ class C18(Check):
     level = "exploration"
     rule = ""
     assumptions = ["every call and raise is printed on a single line (the line reported for a statement spanning several lines is not defined by the property)",
-                   "frames of natives are filtered from tracebacks and backtraces on both sides; VM/native error messages are not compared",
+                   "frames of natives are part of the expected chain (each, reduce); VM/native error messages are not compared",
                    "exit(n) is compared for n in {0, 1, 2, 3, 255}; other arguments are not defined by the property"]
 
     def gen(self, tier):
         D = 4 if tier == "thorough" else 3
         for d in range(1, D + 1):
-            kinds = KINDS if d <= 3 else ["fn", "method", "init", "lambda", "callback", "module"]
+            kinds = (KINDS if d <= 2 or tier == "thorough" else [k for k in KINDS if k != "static"]) if d <= 3 else ["fn", "method", "init", "lambda", "callback", "cbreduce", "module"]
             for chain in itertools.product(kinds, repeat=d):
                 if not valid(chain):
                     continue
